@@ -380,8 +380,15 @@ def container_equal(task, a, b, route, what, fseed):
                 raise V(PROP, "structure", "%s: factor %r restored as %r" % (what, a.factor, b.factor))
         # follow-up behaviour: overlap with the source and virtual legs
         if a.nr_phys == 1 and a.pC is None and b.pC is None and not e2.has_meta_legs(a):     # (vdot on meta-fused virtual legs: known finding K-C06-meta-product)
-            oa, ob = complex(mps.vdot(a, a)), complex(mps.vdot(a, b))
-            if abs(oa - ob) > 1e-12 * max(1.0, abs(oa)):
+            try:
+                oa = complex(mps.vdot(a, a))
+            except (yastn.YastnError, ValueError):
+                # the SOURCE itself cannot be contracted by vdot (objects derived from a meta-fused product: known finding K-C06-meta-product):
+                # no follow-up to compare
+                core.current_world().probes["follow_up_vdot_unusable_on_source"] += 1
+                oa = None
+            ob = complex(mps.vdot(a, b)) if oa is not None else None
+            if oa is not None and abs(oa - ob) > 1e-12 * max(1.0, abs(oa)):
                 raise V(PROP, "follow-up-contraction", "%s: <a|a> = %r but <a|restored> = %r" % (what, oa, ob))
     elif ma != mb:
         raise V(PROP, "structure", "%s: geometry / type differ: %s vs %s" % (what, ma, mb))
